@@ -1,8 +1,9 @@
 package chain
 
 import (
+	"encoding/json"
 	"fmt"
-	"regexp"
+	"os"
 	"sort"
 	"strings"
 	"sync"
@@ -50,7 +51,7 @@ func Attribute(m Mismatch, running string) string {
 			return "C03"
 		case has("!plus1", "!minus1", "!fee1", "!tax", "!zero"):
 			return "C01"
-		case has("!early", "immature", "!era", "!phpast", "!wspast", "!nowindow"):
+		case has("!early", "!timing", "immature", "!era", "!phpast", "!wspast", "!nowindow"):
 			return "C08"
 		case has("!sum", "!samern", "!missedup", "!coll", "!capdown", "!validsum", "!missedsum", "!wrongleaf", "!wrongdata", "!short", "!missedhigh"):
 			return "C07"
@@ -63,6 +64,7 @@ func Attribute(m Mismatch, running string) string {
 type RunOpts struct {
 	Num, Depth int
 	Workers    int
+	NoFocus    bool // all enabled templates compete in every block (for configurations with few templates)
 	Timeout    time.Duration
 	// Hook is called after every executed step (may be nil); it runs on the goroutine that owns sim.
 	Hook func(sim *Sim, beh *Behaviour, i int, st Step, res StepResult)
@@ -80,7 +82,6 @@ type RunStats struct {
 	TLCWall, GoWall                                    time.Duration
 }
 
-var tagDigits = regexp.MustCompile(`[0-9]+`)
 
 // Run lets TLC simulate behaviours of the configuration and replays each on the real code.
 func Run(c *vlib.Ctx, cfg LedgerConfig, o RunOpts) RunStats {
@@ -90,7 +91,7 @@ func Run(c *vlib.Ctx, cfg LedgerConfig, o RunOpts) RunStats {
 	if cfg.EmitDepth == 0 {
 		cfg.EmitDepth = o.Depth
 	}
-	cfg.Focus = true
+	cfg.Focus = !o.NoFocus
 	st := RunStats{Tags: map[string]int{}, Foreign: map[string]int{}}
 	mod, files, cfgText := cfg.Render()
 	per := (o.Num + o.Workers - 1) / o.Workers
@@ -162,7 +163,15 @@ func Run(c *vlib.Ctx, cfg LedgerConfig, o RunOpts) RunStats {
 						c.Infra("behaviour %s step %d: unattributable mismatch %+v", beh.Hash, i, m)
 					default:
 						mu.Lock()
-						st.Foreign[prop+":"+m.Kind+"/"+tagDigits.ReplaceAllString(m.Tag, "")]++
+						k := prop + ":" + m.Kind + "/" + m.Tag
+						if st.Foreign[k] == 0 || os.Getenv("VERIF_DEBUG") != "" {
+							fmt.Printf("NOTE: first %s: behaviour %s step %d: %s\n", k, beh.Hash, i, m.Detail)
+							if os.Getenv("VERIF_DEBUG") != "" {
+								js, _ := json.Marshal(beh.Steps[:i+1])
+								os.WriteFile("/verif/.work/debug-"+beh.Hash+".json", js, 0o644)
+							}
+						}
+						st.Foreign[k]++
 						mu.Unlock()
 					}
 				}
